@@ -24,7 +24,17 @@ RULE = ("seeded circuits (asymmetric product states by X / RY(rational angle) on
         "CNOTs, explicit amplitude vectors spanning many orders of magnitude, operators living in the rare sector "
         "(c(1-Z)/2, projectors with c up to 1e12, coefficients 1e-9 next to 1e6), nearly balanced / one-in-a-billion count "
         "dicts, dyadic probabilities of 2^-45, one rare shot among thousands; probabilities are compared RELATIVELY "
-        "(1e-10; exact rational reference where the state is a product without cancellation, zero / non-zero must agree)")
+        "(1e-10; exact rational reference where the state is a product without cancellation, zero / non-zero must agree).  "
+        "Origins (kind `origin`, oracle only): every view (get_expectation_value incl. the bit-reversed state with "
+        "reverse_operator=True, get_exact_expectation_values, get_probabilities / get_outcome_probs / exact distribution, "
+        "sample_from_wavefunction in BOTH regimes, counts and measured expectation of the samples) on a Wavefunction of every "
+        "origin / storage shape: list, column ndarray (N,1), sympy Matrix (rational / float), fancy-index and slice assignment "
+        "(flat and column), flip_wavefunction, save + load, a symbolic-circuit state bound in one step / in two steps / then saved "
+        "and loaded / flipped twice / re-assigned; Z-type, constant, narrow and mixed operators; every `bind_wf` views case additionally "
+        "asks get_expectation_value on the bound Wavefunction object itself.  Nearly normalised states (kind `nearnorm`): "
+        "amplitudes (flat / column) or a custom Hadamard-like gate rounded to 6-9 decimals with a support that is not invariant "
+        "under qubit reversal, through sample_from_wavefunction, run_and_measure, run_batch_and_measure (both regimes) and "
+        "get_measurement_outcome_distribution(circuit, n)")
 TRUSTED = [
     "rng.choice(a, size=n, p=p) returns exactly n elements of a, never one whose probability is 0, and equals "
     "a[default_rng(seed).choice(len(a), size=n, p=p)] for the same seed (the harness recovers the drawn indices this way)",
@@ -39,6 +49,9 @@ TRUSTED = [
     "count dicts); a value whose exact counterpart is >= 1e-24 must not be reported as 0; sampled tuples, keys, key order "
     "and counts are compared exactly.  The oracle uses the same tolerances against a numpy reference and, where every "
     "amplitude is a single product of exactly known factors, a purely relative 1e-10 against exact rationals",
+    "sympy substitution (Matrix.subs) and json round trip of amplitudes (save_wavefunction / load_wavefunction) reproduce the "
+    "numbers to double precision; the harness obtains the bit-reversed state of the reverse_operator=True view by its own index "
+    "permutation of wf.amplitudes (same storage shape)",
 ]
 ASSUMPTIONS = [
     "a Measurements / Wavefunction / simulator object is a plain container: its views are functions of the tuples / "
@@ -48,7 +61,16 @@ ASSUMPTIONS = [
     "MeasurementOutcomeDistribution(dict) keeps keys, order and (for a normalised vector) values (normalisation is C17's concern)",
     "gate matrices are those of OQ.Model.Gates (validated by C01/C02); the oracle takes the 2^k x 2^k gate matrix from the "
     "library and embeds it by independent bit manipulation",
-    "np.isclose(total probability, 1) is modelled by exact equality with 1 (all generated states are exactly normalised)",
+    "np.isclose(total probability, 1) is modelled by exact equality with 1 (all model-compared states are exactly normalised)",
+    "a state the Wavefunction constructor accepts although its total probability differs from 1 by more than ~1.5e-8 (kind "
+    "`nearnorm`, 6-7 decimals) is refused by every sampling route of the unchanged library (ValueError 'Probabilities do not sum "
+    "to 1' from rng.choice; observed on sample_from_wavefunction, run_and_measure, run_batch_and_measure, "
+    "get_measurement_outcome_distribution(circuit, n)); below that it is sampled.  The property says nothing about a refusal: a "
+    "ValueError is accepted there, and whatever a route RETURNS is judged by the property's sentences (number of samples, tuple "
+    "length = register width, non-zero exact probability under the circuit's qubit numbering)",
+    "the exact-distribution view of a column-shaped state is create_bitstring_distribution_from_probability_distribution("
+    "wf.get_probabilities().ravel()): the function itself takes a one-dimensional probability vector (a column raises TypeError "
+    "in the unchanged library: outside its domain); a row-shaped array (1,N) is not a state of n qubits (n_qubits = 0): not generated",
 ]
 
 TOL = 1e-9
@@ -68,7 +90,8 @@ def _mods():
     common.use_repo()
     import numpy as np
     from orquestra.quantum.runners.symbolic_simulator import SymbolicSimulator
-    from orquestra.quantum.wavefunction import Wavefunction, sample_from_wavefunction
+    from orquestra.quantum.wavefunction import (Wavefunction, sample_from_wavefunction, flip_wavefunction, save_wavefunction,
+                                                load_wavefunction)
     from orquestra.quantum.distributions import create_bitstring_distribution_from_probability_distribution
     from orquestra.quantum.measurements import Measurements
     from orquestra.quantum.measurements.measurements import get_expectation_value_from_frequencies
@@ -76,7 +99,7 @@ def _mods():
     return dict(np=np, Sim=SymbolicSimulator, Wavefunction=Wavefunction, sample=sample_from_wavefunction,
                 create_dist=create_bitstring_distribution_from_probability_distribution, Measurements=Measurements,
                 freq_ev=get_expectation_value_from_frequencies, PauliSum=PauliSum, PauliTerm=PauliTerm,
-                get_ev=get_expectation_value)
+                get_ev=get_expectation_value, flip_wf=flip_wavefunction, save_wf=save_wavefunction, load_wf=load_wavefunction)
 
 
 def _cplx(c):
@@ -307,6 +330,22 @@ def corpus():
         # wide count strings (beyond 64 positions), a zero count, marked qubits as a set
         {"kind": "freq", "marked": [0, 69], "freqs": [["1" + "0" * 69, 3], ["0" * 69 + "1", 2], ["0" * 70, 0]], "marked_as": "set", "twice": True},
         {"kind": "dist", "probs": [0, rat(f(1, 4)), 0, 0, rat(f(1, 4)), 0, rat(f(1, 2)), 0], "as": "list", "twice": True},
+    ]
+    # ---- origins / storage shapes (round 9): a column-shaped state (ndarray (N,1), sympy Matrix, symbolic state bound afterwards
+    # in one / two steps) under a Z-type operator; a custom gate typed in as 0.707107 (total probability 1 + 6e-7)
+    a2 = [[0, 0], ["3/5", 0], [0, "4/5"], [0, 0]]
+    zq = [_term(1, [[0, "Z"]]), _term(2, [[1, "Z"]]), _term(5, [])]
+    cb = {"n": 2, "ops": [_x(1), _ry(f(4, 5), f(3, 5), 0), _ry(f(12, 13), f(5, 13), 1)]}
+    h6 = [[["707107/1000000", 0], ["707107/1000000", 0]], [["707107/1000000", 0], ["-707107/1000000", 0]]]
+    out += [
+        {"kind": "origin", "origin": "column", "amps": a2, "operator": zq, "ns": [3, 9], "seed": 1},
+        {"kind": "origin", "origin": "sympy", "amps": a2, "operator": [_term(1, [[0, "X"], [1, "Y"]]), _term(2, [[1, "Z"]])], "ns": [4, 5], "seed": 1},
+        {"kind": "origin", "origin": "bind_full", "circuit": cb, "operator": zq, "ns": [3, 9], "seed": 1},
+        {"kind": "origin", "origin": "bind_two", "circuit": cb, "operator": [_term(3, [[1, "Z"], [0, "Z"]])], "ns": [1, 5], "seed": 2},
+        {"kind": "nearnorm", "how": "gate", "digits": 6, "seed": 1, "ns": [3, 9],
+         "circuit": {"n": 3, "ops": [_x(0), {"g": {"custom": "h6", "m": h6}, "qs": [1]}]}},
+        {"kind": "nearnorm", "how": "amps", "digits": 7, "seed": 1, "ns": [2, 9],
+         "amps": [[0, 0], [0, 0], [0, 0], [0, 0], ["7071068/10000000", 0], [0, 0], [0, "7071068/10000000"], [0, 0]]},
     ]
     return out
 
@@ -964,6 +1003,13 @@ def generate(rng, tier):
             ztype = all_z or rng.random() < 0.7
             terms.append({"ops": [[q, "Z" if ztype or rng.random() < 0.5 else "X"] for q in qs], "c": [rat(Fraction(rng.randrange(-8, 9) or 3, 4)), 0]})
         cases.append({"kind": "wide_exact", "state": "".join(state), "operator": terms})
+    # ORIGINS / storage shapes of a state (oracle only): every origin at least twice per run, then at random
+    origins = (_ORIGINS_AMPS + _ORIGINS_CIRC) * 2
+    for i_o in range(110 if big else 46):
+        cases.append(_origin_case(rng, origins[i_o] if i_o < len(origins) else None))
+    # states accepted by the constructor whose total probability is 1 only up to ITS tolerance (sampling may refuse them)
+    for i_o in range(60 if big else 24):
+        cases.append(_nearnorm_case(rng, d=[6, 7, 8, 9][i_o] if i_o < 4 else None, how="gate" if i_o < 4 else None))
     return cases
 
 
@@ -1145,6 +1191,9 @@ def nontrivial(c):
     k = c["kind"]
     if k == "wide_exact":
         return True
+    if k in ("origin", "nearnorm"):
+        n = _width(c)
+        return n >= 2 and not _reversal_invariant(np.abs(_ref_state(c)) ** 2, n)
     if k == "views":
         n = _width(c)
         if n < 2:
@@ -1297,6 +1346,17 @@ def _observe(m, c, h, poison, backwards):
                 pass
         ex = _stage(h["exact"])
         out["exact"] = ex if _is_err(ex) else float(ex)
+        if h.get("exact_on_wf"):
+            # the same number through the other public route: get_expectation_value on the Wavefunction object obtained by
+            # binding the simulator's symbolic state afterwards (stored as a column); for a numeric circuit
+            # get_exact_expectation_values IS get_wavefunction + get_expectation_value
+            def on_wf():
+                v = m["get_ev"](op, h["wf"]())
+                if np.size(v) != 1:
+                    raise ValueError(f"not a number but an array of shape {np.shape(v)}")
+                return complex(np.ravel(v)[0]).real
+            ex = _stage(on_wf)
+            out["exact_wf"] = ex if _is_err(ex) else float(ex)
 
     steps = [see_wf, see_dist, see_meas, see_exact]
     for f in (reversed(steps) if backwards else steps):
@@ -1381,7 +1441,7 @@ def _run_views(m, c, env):
         else:
             numeric = circuit.bind(smap)
             get_wf = lambda: sim.get_wavefunction(numeric)  # noqa: E731
-        h.update(wf=get_wf, wf_is_state=False,
+        h.update(wf=get_wf, wf_is_state=False, exact_on_wf=c.get("param") == "bind_wf",
                  dist=lambda: sim.get_measurement_outcome_distribution(numeric, None),
                  meas=lambda: sim.run_and_measure(numeric, ns),
                  exact=lambda: sim.get_exact_expectation_values(numeric, op))
@@ -1585,7 +1645,449 @@ def run_impl(c):
         return _run_session(m, c)
     if k == "wide_exact":
         return _run_wide_exact(m, c)
+    if k in ("origin", "nearnorm"):
+        try:
+            return _run_origin(m, c) if k == "origin" else _run_nearnorm(m, c)
+        except Exception as e:  # recorded; the oracle fails the case
+            return {"exc": type(e).__name__, "msg": str(e)[:200]}
     return _run_views(m, c, {})
+
+
+# ----------------------------------------------------------------------------------------- origins of a state (round 9)
+# Every view the property equates, taken on a Wavefunction of every ORIGIN / storage shape the library produces or accepts
+# (oracle only: the exact model is history- and shape-free, it has nothing to add to the flat-array cases above).
+_ORIGINS_AMPS = ["list", "column", "sympy", "sympy_float", "setitem", "slice", "column_setitem", "column_slice", "flip",
+                 "flip_column", "saveload", "saveload_column"]
+_ORIGINS_CIRC = ["bind_full", "bind_two", "bind_saveload", "bind_flip", "bind_setitem"]
+
+
+def _bitrev(n):
+    return [_index_of(tuple(reversed(_msb_bits(i, n)))) for i in range(2 ** n)]
+
+
+def _dense_amps(rng, n):
+    """dense Gaussian-rational unit vector: a Kronecker product of Pythagorean one-qubit states with phases (no qubit balanced)"""
+    f = Fraction
+    vec = [(f(1), f(0))]
+    for _ in range(n):
+        a, b = rng.choice([(f(3, 5), f(4, 5)), (f(5, 13), f(12, 13)), (f(4, 5), f(3, 5)), (f(8, 17), f(15, 17)), (f(0), f(1))])
+        new = []
+        for (re, im) in vec:
+            for x in (a, b):
+                ph = rng.choice([(1, 0), (1, 0), (0, 1), (-1, 0), (0, -1)])
+                new.append((x * (re * ph[0] - im * ph[1]), x * (re * ph[1] + im * ph[0])))
+        vec = new
+    return [[rat(re), rat(im)] for re, im in vec]
+
+
+def _origin_operator(rng, n):
+    r = rng.random()
+    if r < 0.4:
+        op = _random_operator(rng, n, ztype=True)
+    elif r < 0.6:
+        op = _narrow_operator(rng, n)                                   # Z-type + constant, narrower than the register
+    elif r < 0.7:
+        op = [_term(Fraction(rng.randrange(1, 9), 2), [])]              # a constant
+    elif r < 0.8:
+        op = [_term(Fraction(rng.randrange(1, 9), 2) * rng.choice([-1, 1]), [[rng.randrange(n), "Z"]])]   # one non-constant Z term
+    else:
+        op = _random_operator(rng, n, ztype=False)
+    return op or [_term(2, [[n - 1, "Z"]]), _term(Fraction(1, 2), [])]
+
+
+def _origin_case(rng, origin=None):
+    n = rng.choice([1, 2, 2, 3, 3, 3, 4])
+    origin = origin or rng.choice(_ORIGINS_AMPS + _ORIGINS_CIRC + ["bind_full", "bind_two", "column", "sympy"])
+    big_ = 2 ** n
+    c = {"kind": "origin", "origin": origin, "seed": rng.randrange(2 ** 31), "operator": _origin_operator(rng, n),
+         "ns": [rng.choice([1, max(1, big_ - 1), big_]), rng.choice([big_ + 1, 2 * big_ + 3])]}
+    if origin in _ORIGINS_CIRC:
+        n = min(n, 3)
+        ops = []
+        order = list(range(n))
+        rng.shuffle(order)
+        for q in order:
+            if rng.random() < 0.3:
+                ops.append(_x(q))
+            if rng.random() < 0.75:
+                ops.append({"g": {"gate": rng.choice(["RY", "RY", "RX"]), "angles": [circ.rat_angle(rng, axis_prob=0.0)]}, "qs": [q]})
+        while sum(1 for o in ops if o["g"].get("angles")) < 2:
+            ops.append({"g": {"gate": "RY", "angles": [circ.rat_angle(rng, axis_prob=0.0)]}, "qs": [rng.randrange(n)]})
+        if n >= 2 and rng.random() < 0.4:
+            qs = rng.sample(range(n), 2)
+            ops.insert(rng.randrange(len(ops) + 1), {"g": {"gate": "CNOT", "angles": []}, "qs": qs})
+        c["circuit"] = {"n": n, "ops": ops}
+        c["operator"] = _origin_operator(rng, n)
+        c["ns"] = [rng.choice([1, max(1, 2 ** n - 1), 2 ** n]), rng.choice([2 ** n + 1, 2 * 2 ** n + 3])]
+    else:
+        c["amps"] = _dense_amps(rng, n) if rng.random() < 0.5 else _random_amps(rng, n)
+        if origin in ("setitem", "column_setitem", "slice", "column_slice"):
+            i, j = (sorted(rng.sample(range(big_), 2)) if big_ >= 2 else (0, 0))
+            c["edit"] = [i, j]
+    return c
+
+
+def _origin_wavefunction(m, c):
+    """the Wavefunction of case `c`, obtained the way c['origin'] says (every step is a public constructor / method)"""
+    import os
+    import tempfile
+    import sympy
+    np = m["np"]
+    W = m["Wavefunction"]
+    origin = c["origin"]
+
+    def saveload(wf):
+        fd, path = tempfile.mkstemp(suffix=".json")
+        os.close(fd)
+        try:
+            m["save_wf"](wf, path)
+            return m["load_wf"](path)
+        finally:
+            os.unlink(path)
+
+    if "circuit" in c:
+        circuit, smap = _build_circuit(m, c["circuit"], param=True)
+        sim = m["Sim"](seed=c["seed"])
+        sym = sim.get_wavefunction(circuit)
+        keys = list(smap)
+        if origin == "bind_two":
+            # one symbol first, the others afterwards (the intermediate state still has free symbols)
+            wf = sym.bind({keys[0]: smap[keys[0]]}).bind({k: smap[k] for k in keys[1:]})
+        else:
+            wf = sym.bind(smap)
+        if origin == "bind_saveload":
+            wf = saveload(wf)
+        elif origin == "bind_flip":
+            wf = m["flip_wf"](m["flip_wf"](wf))          # reversing the qubit order twice is the identity
+        elif origin == "bind_setitem":
+            a = np.array(wf.amplitudes, dtype=complex)
+            wf[0:len(a)] = a                               # (same storage shape) an assignment of the amplitudes the state already has
+        return wf, sim, circuit.bind(smap)
+    amps = [_cplx(a) for a in c["amps"]]
+    n = _width(c)
+    flat = np.array(amps, dtype=complex)
+    if origin == "list":
+        return W(list(amps)), None, None
+    if origin == "column":
+        return W(flat.reshape(-1, 1)), None, None
+    if origin == "sympy":
+        return W(sympy.Matrix([sympy.Rational(str(unrat(a[0]))) + sympy.I * sympy.Rational(str(unrat(a[1]))) for a in c["amps"]])), None, None
+    if origin == "sympy_float":
+        return W(sympy.Matrix([complex(a) for a in amps])), None, None
+    if origin in ("setitem", "column_setitem", "slice", "column_slice"):
+        i, j = c["edit"]
+        start = flat.copy()
+        col = origin.startswith("column")
+        if origin.endswith("setitem"):
+            start[[i, j]] = start[[j, i]]
+            wf = W(start.reshape(-1, 1) if col else start)
+            vals = flat[[i, j]]
+            wf[[i, j]] = vals.reshape(-1, 1) if col else vals            # a permutation keeps the norm
+        else:
+            start[i:j + 1] = start[i:j + 1][::-1].copy()
+            wf = W(start.reshape(-1, 1) if col else start)
+            vals = flat[i:j + 1]
+            wf[i:j + 1] = vals.reshape(-1, 1) if col else vals
+        return wf, None, None
+    if origin in ("flip", "flip_column"):
+        rev = flat[_bitrev(n)]
+        return m["flip_wf"](W(rev.reshape(-1, 1) if origin == "flip_column" else rev)), None, None
+    if origin in ("saveload", "saveload_column"):
+        return saveload(W(flat.reshape(-1, 1) if origin == "saveload_column" else flat)), None, None
+    raise AssertionError(origin)
+
+
+def _sample_views(m, samples, op):
+    """what a caller derives from sampled tuples: the tuples, their count strings, the measured expectation values"""
+    if _is_err(samples):
+        return {"samples": samples}
+    meas = m["Measurements"](samples)
+    cnt = _stage(meas.get_counts)
+    ev = _stage(lambda: meas.get_expectation_values(op))
+    return {"samples": _canon_samples(samples),
+            "counts": cnt if _is_err(cnt) else [[str(k), int(v)] for k, v in cnt.items()],
+            "measured": ev if _is_err(ev) else [[float(complex(v).real), float(complex(v).imag)] for v in ev.values]}
+
+
+def _run_origin(m, c):
+    np = m["np"]
+    r = _stage(lambda: _origin_wavefunction(m, c))
+    if _is_err(r):
+        return {"wf": r}
+    wf, sim, numeric = r
+    op = _build_operator(m, c["operator"], None)
+    raw = wf.amplitudes
+    amps = np.array(raw, dtype=complex).reshape(-1)
+    n = _width(c)
+    out = {"wf": [[float(a.real), float(a.imag)] for a in amps], "shape": list(np.shape(raw)), "n_qubits": int(wf.n_qubits)}
+
+    def cx(v):
+        v = complex(np.ravel(v)[0]) if np.size(v) == 1 else None
+        return None if v is None else [v.real, v.imag]
+
+    def value(f):
+        v = _stage(f)
+        if _is_err(v):
+            return v
+        if np.size(v) != 1:
+            return {"err": "err:shape", "msg": f"not a number but an array of shape {np.shape(v)}"}
+        return cx(v)
+
+    out["exact"] = value(lambda: m["get_ev"](op, wf))
+    if len(amps) == 2 ** n:
+        # the other basis-state convention: the bit-reversed state (same storage shape) + reverse_operator=True
+        out["exact_rev"] = value(lambda: m["get_ev"](op, m["Wavefunction"](np.array(raw, dtype=complex)[_bitrev(n)]), reverse_operator=True))
+    if sim is not None:
+        out["exact_sim"] = value(lambda: sim.get_exact_expectation_values(numeric, op))
+    pr = _stage(wf.get_probabilities)
+    out["probs"] = pr if _is_err(pr) else [float(x) for x in np.ravel(pr)]
+    opr = _stage(wf.get_outcome_probs)
+    out["outcome_probs"] = opr if _is_err(opr) else [[str(k), float(np.ravel(v)[0])] for k, v in opr.items()]
+    if not _is_err(pr):
+        d = _stage(lambda: m["create_dist"](np.ravel(pr)))
+        out["dist"] = d if _is_err(d) else _canon_kv(d.distribution_dict, _bits_of_key)
+    for name, ns in zip(("few", "many"), c["ns"]):
+        out[name] = _sample_views(m, _stage(lambda: m["sample"](wf, ns, c["seed"])), op)
+    return out
+
+
+def _oracle_samples(n, probs, opspec, ns, view, where, nonzero=None):
+    """sentences about sampled tuples: count, length = register width, non-zero exact probability, count strings use position
+    q for qubit q, measured expectation of a Z-type term = eigenvalue average over the shots"""
+    smp = view["samples"]
+    if len(smp) != ns:
+        return (_sig(n, "sample-count"), f"{where}: {len(smp)} samples returned, {ns} requested")
+    for t in smp:
+        if isinstance(t, dict):
+            return (_sig(n, "sample-not-tuple"), f"{where}: sampled outcome is not a tuple: {t}")
+        if len(t) != n:
+            return (_sig(n, "sample-length"), f"{where}: sampled tuple {t} has length {len(t)}, register width {n}")
+        if any(b not in (0, 1) for b in t) or not (nonzero[_index_of(t)] if nonzero is not None else probs[_index_of(t)] >= 1e-24):
+            return (_sig(n, "sample-zero-prob"), f"{where}: sampled tuple {tuple(t)} has exact probability 0 (qubit q of the circuit / amplitude index "
+                    f"bit q from the left = position q of the tuple; outcomes with non-zero probability: "
+                    f"{[_msb_bits(i, n) for i in range(2 ** n) if probs[i] >= 1e-24][:8]})")
+    if "counts" in view:
+        cnt = {}
+        for t in smp:
+            s = "".join(str(b) for b in t)
+            cnt[s] = cnt.get(s, 0) + 1
+        if _is_err(view["counts"]) or dict(map(tuple, view["counts"])) != cnt:
+            return (_sig(n, "counts-key"), f"{where}: get_counts {view['counts']} but position-q strings of the samples give {cnt}")
+    if opspec is not None and "measured" in view and n >= 1 and all(int(q) < n for t in opspec for q, _ in t["ops"]) \
+            and all(p == "Z" for t in opspec for _, p in t["ops"]):
+        if _is_err(view["measured"]) or len(view["measured"]) != len(opspec):
+            return (_sig(n, "measured-expectation"), f"{where}: Measurements.get_expectation_values: {str(view['measured'])[:200]}")
+        for t, v in zip(opspec, view["measured"]):
+            wantv = _cplx(t["c"]) * float(_parity_avg([int(q) for q, _ in t["ops"]], smp))
+            if abs(complex(v[0], v[1]) - wantv) > 1e-12 * abs(_cplx(t["c"])):
+                return (_sig(n, "measured-expectation"), f"{where}: term {t}: value from measurements {v}, eigenvalue average over the shots {wantv}")
+    return None
+
+
+def _oracle_origin(c, out):
+    import numpy as np
+    n = _width(c)
+    how = f"Wavefunction of origin `{c['origin']}`"
+    if _is_err(out.get("wf")):
+        return (_sig(n, "origin-raise"), f"{how} could not be obtained: {out['wf']}")
+    how += f" (amplitudes stored with shape {out.get('shape')})"
+    ref = _ref_state(c)
+    probs = np.abs(ref) ** 2
+    wf = np.array([complex(a[0], a[1]) for a in out["wf"]])
+    bad = _state_wrong(wf, ref, None)
+    if bad is not None or out.get("n_qubits") != n:
+        return (_sig(n, "wavefunction-qubit-order"), f"{how}: {out.get('n_qubits')} qubits, amplitudes {wf.tolist()[:8]} but the state is {ref.tolist()[:8]} on {n} qubits")
+    for name in ("probs", "outcome_probs", "dist"):
+        if name not in out or _is_err(out[name]):
+            return (_sig(n, "origin-raise"), f"{how}: {name} raised / missing: {out.get(name)}")
+    if len(out["probs"]) != 2 ** n or any(_prob_wrong(g, p, None) for g, p in zip(out["probs"], probs)):
+        return (_sig(n, "outcome-probs-values"), f"{how}: get_probabilities {out['probs'][:8]} but |amplitude|^2 is {probs.tolist()[:8]}")
+    if len(out["outcome_probs"]) != 2 ** n or any(_prob_wrong(g, p, None) for g, p in zip(sorted(v for _, v in out["outcome_probs"]), sorted(probs))):
+        return (_sig(n, "outcome-probs-values"), f"{how}: the values of get_outcome_probs {out['outcome_probs'][:8]} are not the outcome probabilities {probs.tolist()[:8]}")
+    got = {tuple(kv[0]): kv[1] for kv in out["dist"]}
+    for i in range(2 ** n):
+        b = _msb_bits(i, n)
+        why = "no such key" if b not in got else _prob_wrong(got[b], probs[i], None)
+        if why or len(got) != 2 ** n:
+            return (_sig(n, "dist-key-order"), f"{how}: exact distribution at {b} (basis index {i}): {why}")
+    opspec = c["operator"]
+    scale = 1 + sum(abs(_cplx(t["c"])) for t in opspec)
+    if all(int(q) < n for t in opspec for q, _ in t["ops"]):
+        ztype = all(p == "Z" for t in opspec for _, p in t["ops"])
+        if ztype:
+            want = 0j
+            for t in opspec:
+                qs_ = [int(q) for q, _ in t["ops"]]
+                want += _cplx(t["c"]) * math.fsum(got[_msb_bits(i, n)] * (-1) ** sum(_msb_bits(i, n)[q] for q in qs_) for i in range(2 ** n))
+            what = "the average of its eigenvalues under the exact outcome distribution of the same state"
+        else:
+            want = complex(_ref_expectation(opspec, ref, n))
+            what = "psi^dagger O psi with qubit 0 the leftmost factor"
+        for name, route in (("exact", "get_expectation_value(operator, wavefunction)"),
+                            ("exact_rev", "get_expectation_value(operator, bit-reversed wavefunction, reverse_operator=True)"),
+                            ("exact_sim", "simulator.get_exact_expectation_values(bound circuit, operator)")):
+            if name not in out:
+                continue
+            v = out[name]
+            if _is_err(v):
+                return (_sig(n, "exact-raise"), f"{how}: {route} raised {v}")
+            z = complex(v[0], v[1])
+            if name == "exact_sim":
+                z, w_ = complex(z.real, 0), complex(want.real, 0)
+            else:
+                w_ = want
+            if abs(z - w_) > 1e-12 * scale + REL * abs(w_):
+                return (_sig(n, "exact-expectation"), f"{how}: {route} = {z!r} for the {'Z-type' if ztype else 'general'} operator {opspec} but {what} is {w_!r}")
+    for name, ns in zip(("few", "many"), c["ns"]):
+        view = out[name]
+        where = f"{how}: sample_from_wavefunction(wf, {ns}) ({'fewer samples than' if ns < 2 ** n else 'as many samples as' if ns == 2 ** n else 'more samples than'} basis states)"
+        if _is_err(view["samples"]):
+            return (_sig(n, "sample-raise"), f"{where} raised {view['samples']}")
+        r = _oracle_samples(n, probs, opspec, ns, view, where)
+        if r:
+            return r
+    return None
+
+
+# ---- states the Wavefunction constructor ACCEPTS although their total probability is 1 only up to its own tolerance
+# (np.isclose: ~1e-5): amplitudes rounded to 6-9 decimals, a custom gate entered as 0.707107.  rng.choice is stricter (~1.5e-8);
+# the unchanged library then raises ValueError on every sampling route.  Whatever a route RETURNS is judged by the property.
+def _dec(x, d):
+    return Fraction(f"{x:.{d}f}")
+
+
+def _asym_support(rng, n, k):
+    """k basis indices whose qubit-reversed images are (if possible) not in the set"""
+    best = None
+    for _ in range(40):
+        s = rng.sample(range(2 ** n), k)
+        rev = _bitrev(n)
+        clash = sum(1 for i in s if rev[i] in s)
+        if best is None or clash < best[0]:
+            best = (clash, s)
+        if clash == 0:
+            break
+    return best[1]
+
+
+def _nearnorm_case(rng, how=None, d=None):
+    n = rng.choice([2, 3, 3, 4])
+    d = d or rng.choice([6, 6, 7, 7, 8, 9])
+    how = how or rng.choice(["amps", "amps_column", "gate", "gate"])
+    big_ = 2 ** n
+    c = {"kind": "nearnorm", "how": how, "digits": d, "seed": rng.randrange(2 ** 31),
+         "ns": [rng.choice([1, 2, max(1, big_ - 1), big_]), rng.choice([big_ + 1, 2 * big_ + 3, 50])]}
+    if how.startswith("amps"):
+        k = rng.choice([x for x in (2, 3, 3, 5, 6, 7) if x <= big_ // 2 or x == 2])
+        amps = [[0, 0] for _ in range(big_)]
+        for i in _asym_support(rng, n, k):
+            v = _dec(1 / math.sqrt(k), d)
+            ph = rng.choice([(1, 0), (0, 1), (-1, 0), (0, -1)])
+            amps[i] = [rat(v * ph[0]), rat(v * ph[1])]
+        c["amps"] = amps
+    else:
+        # basis state by X gates, ONE qubit (sometimes two, from 7 decimals on) put into superposition by a custom gate whose
+        # matrix is the Hadamard matrix as somebody would type it in; optionally fanned out by a CNOT
+        h = _dec(1 / math.sqrt(2), d)
+        hm = [[[rat(h), 0], [rat(h), 0]], [[rat(h), 0], [rat(-h), 0]]]
+        for _ in range(40):
+            qs = list(range(n))
+            rng.shuffle(qs)
+            nh = 2 if d >= 7 and n >= 3 and rng.random() < 0.3 else 1
+            ops = [_x(q) for q in qs[nh:] if rng.random() < 0.6]
+            for q in qs[:nh]:
+                ops.append({"g": {"custom": f"h{d}", "m": hm}, "qs": [q]})
+            if rng.random() < 0.4 and n > nh:
+                ops.append({"g": {"gate": "CNOT", "angles": []}, "qs": [qs[0], qs[nh]]})
+            # support by a small independent simulation on bit tuples
+            sup = {tuple([0] * n)}
+            for o in ops:
+                g = o["g"]
+                if g.get("gate") == "X":
+                    sup = {tuple(b ^ 1 if q == o["qs"][0] else b for q, b in enumerate(t)) for t in sup}
+                elif "custom" in g:
+                    sup = {tuple(v if q == o["qs"][0] else b for q, b in enumerate(t)) for t in sup for v in (0, 1)}
+                else:
+                    a, b_ = o["qs"]
+                    sup = {tuple(b ^ t[a] if q == b_ else b for q, b in enumerate(t)) for t in sup}
+            if not any(tuple(reversed(t)) in sup for t in sup):
+                break
+        c["circuit"] = {"n": n, "ops": ops}
+    return c
+
+
+def _run_nearnorm(m, c):
+    np = m["np"]
+    few, many = c["ns"]
+    seed = c["seed"]
+    out = {}
+
+    def tuples(x):
+        return x if _is_err(x) else _canon_samples(x)
+
+    if "amps" in c:
+        flat = np.array([_cplx(a) for a in c["amps"]], dtype=complex)
+        wf = _stage(lambda: m["Wavefunction"](flat.reshape(-1, 1) if c["how"] == "amps_column" else flat))
+        if _is_err(wf):
+            return {"ctor": wf}
+        out["total"] = float(np.sum(wf.get_probabilities()))
+    else:
+        circuit = circ.build_circuit(c["circuit"])
+        sim = m["Sim"](seed=seed)
+        wf = _stage(lambda: sim.get_wavefunction(circuit))
+        if _is_err(wf):
+            return {"ctor": wf}
+        out["total"] = float(np.sum(wf.get_probabilities()))
+        out["run_few"] = tuples(_stage(lambda: sim.run_and_measure(circuit, few).bitstrings))
+        out["run_many"] = tuples(_stage(lambda: sim.run_and_measure(circuit, many).bitstrings))
+        b = _stage(lambda: [x.bitstrings for x in sim.run_batch_and_measure([circuit, circuit], [many, few])])
+        out["batch_many"], out["batch_few"] = (b, b) if _is_err(b) else (tuples(b[0]), tuples(b[1]))
+        ed = _stage(lambda: sim.get_measurement_outcome_distribution(circuit, many))
+        out["edist_many"] = ed if _is_err(ed) else _canon_kv(ed.distribution_dict, _bits_of_key)
+    out["wf"] = [[float(a.real), float(a.imag)] for a in np.array(wf.amplitudes, dtype=complex).reshape(-1)]
+    out["sample_few"] = tuples(_stage(lambda: m["sample"](wf, few, seed)))
+    out["sample_many"] = tuples(_stage(lambda: m["sample"](wf, many, seed)))
+    return out
+
+
+_NEAR_ROUTES = {"sample_few": "sample_from_wavefunction(wf, {few})", "sample_many": "sample_from_wavefunction(wf, {many})",
+                "run_few": "simulator.run_and_measure(circuit, {few})", "run_many": "simulator.run_and_measure(circuit, {many})",
+                "batch_few": "simulator.run_batch_and_measure([circuit, circuit], [{many}, {few}])[1]",
+                "batch_many": "simulator.run_batch_and_measure([circuit, circuit], [{many}, {few}])[0]"}
+
+
+def _oracle_nearnorm(c, out):
+    import numpy as np
+    n = _width(c)
+    if "ctor" in out:
+        return None      # the constructor refused the state: outside the property's domain
+    ref = _ref_state(c)
+    probs = np.abs(ref) ** 2
+    few, many = c["ns"]
+    what = (f"state accepted by Wavefunction() with total probability {out.get('total')!r} "
+            f"({'amplitudes' if 'amps' in c else 'custom gate matrix'} rounded to {c['digits']} decimals)")
+    wf = np.array([complex(a[0], a[1]) for a in out["wf"]])
+    if _state_wrong(wf, ref, None) is not None:
+        return (_sig(n, "wavefunction-qubit-order"), f"{what}: amplitudes {wf.tolist()[:8]} but the state is {ref.tolist()[:8]}")
+    for name, route in _NEAR_ROUTES.items():
+        if name not in out:
+            continue
+        v = out[name]
+        if _is_err(v):
+            if v["err"] == "err:value":
+                continue     # refused ("Probabilities do not sum to 1"): no outcome was reported, nothing to judge
+            return (_sig(n, "sample-raise"), f"{what}: {route.format(few=few, many=many)} raised {v}")
+        ns = few if name.endswith("few") else many
+        r = _oracle_samples(n, probs, None, ns, {"samples": v}, f"{what}: {route.format(few=few, many=many)}")
+        if r:
+            return r
+    ed = out.get("edist_many")
+    if ed is not None and not _is_err(ed):
+        for key, v in ed:
+            if len(key) != n or (v != 0 and probs[_index_of(key)] < 1e-24):
+                return (_sig(n, "sample-zero-prob"), f"{what}: get_measurement_outcome_distribution(circuit, {many}) reports outcome {tuple(key)} "
+                        f"with frequency {v}; its exact probability is 0 / its length is not the register width {n}")
+    return None
 
 
 # ----------------------------------------------------------------------------------------- model side
@@ -1672,6 +2174,8 @@ def requests(c, out):
         return [("meas", {"shots": [list(t) for t in st], "operator": o.get("operator", [])}) for o, st in _meas_trace(c)[0]]
     if k == "wide_exact":
         return []   # (oracle only: the exact model is not asked for 2^17 amplitudes)
+    if k in ("origin", "nearnorm"):
+        return []   # (oracle only: the model is shape- and origin-free; it has no notion of a nearly normalised state)
     if k == "session":
         outs = out.get("steps", []) if isinstance(out, dict) else []
         rs = []
@@ -1982,6 +2486,10 @@ def oracle(c, out):
         return None
     if k == "meas":
         return _oracle_meas(c, out)
+    if k == "origin":
+        return _oracle_origin(c, out)
+    if k == "nearnorm":
+        return _oracle_nearnorm(c, out)
     if k == "session":
         outs = out.get("steps") if isinstance(out, dict) else None
         if outs is None or len(outs) != len(c["steps"]):
@@ -2148,6 +2656,13 @@ def _oracle_views(c, out):
             want = _ref_expectation(opspec, ref, n).real
         if abs(out["exact"] - want) > 1e-13 * scale + REL * abs(want):
             return (_sig(n, "exact-expectation"), f"exact expectation {out['exact']!r} but eigenvalue average under the exact distribution is {want!r}")
+        if "exact_wf" in out:
+            tag = "get_expectation_value(operator, the simulator's Wavefunction" + (" bound afterwards)" if c.get("param") == "bind_wf" else ")")
+            if _is_err(out["exact_wf"]):
+                return (_sig(n, "exact-raise"), f"{tag} raised: {out['exact_wf']}")
+            if abs(out["exact_wf"] - want) > 1e-13 * scale + REL * abs(want):
+                return (_sig(n, "exact-expectation"), f"{tag} = {out['exact_wf']!r} but the "
+                        f"{'eigenvalue average under the exact distribution' if ztype else 'reference value'} is {want!r}")
         if ztype and samples is not None:
             if _is_err(out["measured"]):
                 return ("width-0-measured-raise" if n == 0 else "measured-raise",
@@ -2199,4 +2714,22 @@ def distribution(cases, outs):
                 if _is_err(o.get(f)):
                     key = f + ":" + o[f]["err"]
                     errs[key] = errs.get(key, 0) + 1
-    return {"widths": widths, "sampling_regimes": regimes, "error_kinds": errs, "driving": drive, "histories": hist}
+    origins, near = {}, {"cases": 0, "routes_sampled": 0, "routes_refused": 0, "constructor_refused": 0}
+    for c, o in zip(cases, outs):
+        if c["kind"] == "origin":
+            origins[c["origin"]] = origins.get(c["origin"], 0) + 1
+            shp = "stored_as_column" if isinstance(o, dict) and len(o.get("shape") or []) == 2 else "stored_flat"
+            origins[shp] = origins.get(shp, 0) + 1
+            zt = all(p == "Z" for t in c["operator"] for _, p in t["ops"])
+            key = "op_constant" if not any(t["ops"] for t in c["operator"]) else "op_ztype" if zt else "op_mixed"
+            origins[key] = origins.get(key, 0) + 1
+        elif c["kind"] == "nearnorm":
+            near["cases"] += 1
+            near["digits_%d" % c["digits"]] = near.get("digits_%d" % c["digits"], 0) + 1
+            if isinstance(o, dict):
+                near["constructor_refused"] += 1 if "ctor" in o else 0
+                for name in _NEAR_ROUTES:
+                    if name in o:
+                        near["routes_refused" if _is_err(o[name]) else "routes_sampled"] += 1
+    return {"widths": widths, "sampling_regimes": regimes, "error_kinds": errs, "driving": drive, "histories": hist,
+            "state_origins": origins, "nearly_normalised_states": near}
